@@ -91,11 +91,12 @@ DEFAULT_OMEN = {
 }
 
 
-def write_lines(path, lines, encoding):
+def write_lines(path, lines, encoding, final_newline=True):
     os.makedirs(os.path.dirname(path), exist_ok=True)
     with open(path, 'wb') as f:
-        for ln in lines:
-            f.write((ln + '\n').encode(encoding, errors='surrogateescape'))
+        for i, ln in enumerate(lines):
+            end = '' if (not final_newline and i == len(lines) - 1) else '\n'
+            f.write((ln + end).encode(encoding, errors='surrogateescape'))
 
 
 def write_ruleset(path, spec):
@@ -109,11 +110,12 @@ def write_ruleset(path, spec):
         shutil.rmtree(path)
     os.makedirs(path)
     files = {k: [] for k in SECTION}
+    nf = set(spec.get('no_final_newline', []))
     for name, items in spec.get('terminals', {}).items():
         cat, num = name[0], name[1:]
         fn = f"{num}.txt"
         files[cat].append(fn)
-        write_lines(os.path.join(path, FOLDER[cat], fn), [f"{v}\t{p}" for v, p in items], enc)
+        write_lines(os.path.join(path, FOLDER[cat], fn), [f"{v}\t{p}" for v, p in items], enc, final_newline=name not in nf)
     for cat in FOLDER:
         os.makedirs(os.path.join(path, FOLDER[cat]), exist_ok=True)
     # flat lists always exist in trainer output (possibly empty)
@@ -121,7 +123,8 @@ def write_ruleset(path, spec):
         if '1.txt' not in files[cat]:
             write_lines(os.path.join(path, FOLDER[cat], '1.txt'), [], enc)
         files[cat] = ['1.txt']
-    write_lines(os.path.join(path, 'Grammar', 'grammar.txt'), [f"{s}\t{p}" for s, p in spec.get('grammar', [])], 'ascii')
+    write_lines(os.path.join(path, 'Grammar', 'grammar.txt'), [f"{s}\t{p}" for s, p in spec.get('grammar', [])], 'ascii',
+                final_newline='grammar' not in nf)
     write_lines(os.path.join(path, 'Grammar', 'raw_grammar.txt'), [f"{s}\t{p}" for s, p in spec.get('raw_grammar', spec.get('grammar', []))], 'ascii')
     write_lines(os.path.join(path, 'Prince', 'grammar.txt'), [f"{s}\t{p}" for s, p in spec.get('prince', [])], 'ascii')
     write_lines(os.path.join(path, 'Emails', 'email_providers.txt'), [f"{v}\t{p}" for v, p in spec.get('emails', [])], enc)
@@ -135,7 +138,8 @@ def write_ruleset(path, spec):
     write_lines(os.path.join(od, 'LN.level'), [str(l) for l in om['ln']], 'ascii')
     write_lines(os.path.join(od, 'alphabet.txt'), list(om['alphabet']), enc)
     write_lines(os.path.join(od, 'omen_keyspace.txt'), [f"{l}\t{k}" for l, k in om['keyspace']], enc)
-    write_lines(os.path.join(od, 'pcfg_omen_prob.txt'), [f"{l}\t{p}" for l, p in spec.get('omen_prob', [])], enc)
+    write_lines(os.path.join(od, 'pcfg_omen_prob.txt'), [f"{l}\t{p}" for l, p in spec.get('omen_prob', [])], enc,
+                final_newline='omen_prob' not in nf)
     cfg = configparser.ConfigParser()
     cfg.add_section('training_settings')
     cfg.set('training_settings', 'ngram', str(om['ngram']))
